@@ -27,6 +27,8 @@ class C02:
         cov["samples"] = [{"component": "proxy", "events": c.meta["events"], "first_event": pc.event_text(c, 0)[:5]} for c in cases[len(corpus):len(corpus) + 2]]
         cov["corpus_cases"] = len(corpus)
         cov["exhaustive"] = False
+        # responses arriving on the connections the proxy opened to TCP backends, and responses routed back to them
+        pc.explore_tb(ctx, "C02", ["proxytb-C02"], cov, failures)
         return {"coverage": cov, "failures": failures}
 
     def opts(self, rng, i):
